@@ -189,7 +189,20 @@ fn recover_and_check(
         Err(p) => return Err(panic_failure(&format!("{ctxt}: reopening after the crash"), &p)),
     };
     let upto = cands.iter().map(|m| m.len()).max().unwrap_or(0) + 3;
-    let obs = hc::observe(&mut core, upto, false).map_err(|p| panic_failure(&format!("{ctxt}: observing the recovered core"), &p))?;
+    // indices on which the candidate states differ are always observed (long logs are otherwise sampled)
+    let mut differ: Vec<u64> = vec![];
+    if cands.len() > 1 && upto > 400 {
+        let (a, b) = (cands[0], cands[1]);
+        for i in 0..a.len().max(b.len()) {
+            if a.get(i) != b.get(i) {
+                differ.push(i);
+                if differ.len() > 2000 {
+                    break;
+                }
+            }
+        }
+    }
+    let obs = hc::observe_with(&mut core, upto, false, &differ).map_err(|p| panic_failure(&format!("{ctxt}: observing the recovered core"), &p))?;
     let mut matched = None;
     let mut diffs = vec![];
     for (i, m) in cands.iter().enumerate() {
@@ -256,9 +269,25 @@ pub fn enumerate(rec: &Recorded, cfg: &CrashCfg, local: &mut Local, stats: &mut 
     let mut rng = crate::runner::small_rng(cfg.seed, rec.journal.len() as u64);
     let n = rec.journal.len();
     let mut point = 0usize;
+    let only_k: Option<usize> = std::env::var("HCV_ONLY_K").ok().and_then(|s| s.parse().ok());
+    // histories with hundreds of blocks: every recovery costs O(length) observations
+    let heavy = n - rec.k0 > 600 || rec.models.iter().map(|m| m.len()).max().unwrap_or(0) > 100;
     for k in rec.k0..=n {
         if k > rec.k0 {
             apply(&mut files, &rec.journal[k - 1]);
+        }
+        if let Some(ok) = only_k {
+            if k != ok {
+                continue;
+            }
+        }
+        // a call that issues hundreds of storage operations (flushing a batch of hundreds of blocks
+        // writes every tree node separately): all points near its start and end, every 16th in between
+        if let Some(c) = rec.calls.iter().find(|c| c.b < k && k < c.e) {
+            if c.e - c.b > 96 && k - c.b > 32 && c.e - k > 32 && (k - c.b) % 16 != 0 {
+                local.class("crash_points_skipped_inside_calls_with_more_than_96_storage_ops");
+                continue;
+            }
         }
         // which call is in progress?
         let inside = rec.calls.iter().find(|c| c.b < k && k < c.e);
@@ -281,9 +310,15 @@ pub fn enumerate(rec: &Recorded, cfg: &CrashCfg, local: &mut Local, stats: &mut 
             point += 1;
             let mut sub = *cfg;
             if let Some(every) = cfg.recurse_every {
-                if point % every != 0 {
+                if point % every != 0 && only_k.is_none() {
                     sub.recurse_every = None;
                 }
+            }
+            if heavy {
+                // very long journal (a history with a batch of hundreds of blocks): no nested level,
+                // usability suffix at every 4th explored point
+                sub.recurse_every = None;
+                sub.suffix = cfg.suffix && point % 4 == 0;
             }
             local.class("crash_points");
             if let Some(c) = call {
@@ -331,6 +366,9 @@ pub fn enumerate(rec: &Recorded, cfg: &CrashCfg, local: &mut Local, stats: &mut 
                     }
                     let mut sub = *cfg;
                     sub.recurse_every = None;
+                    if heavy {
+                        sub.suffix = cfg.suffix && cut % 8 == 1;
+                    }
                     recover_and_check(
                         &f2,
                         &cands_t,
